@@ -21,6 +21,7 @@ func init() {
 			"the start guard: not running, and last start truncated to the minute before the scheduled minute (C09.start-guard); stop only when running, restart unconditionally (C09.stop-guard)",
 			"entries built from Schedule / StopSchedule / RestartSchedule carry the matching kind, Invoke maps each kind to the same-named job method, suspended DAGs contribute no entry (C09.entry-table); the suspend flag is looked up with the key it is written with: the file id derived from the definition's Location, never DAG.Name (C09.suspend-key)",
 			"a file that fails to load neither ends directory initialisation nor the watcher loop, and the watcher releases its mutex on every way round the loop (C09.bad-file-isolation); the metadata loader is panic-free for decoded pointers (C13, shared obligation evaluated there)",
+			"every value the flag store's IsSuspended returns is the result of a call it makes to the storage layer in that invocation - the answer is never remembered inside one process (C09.suspend-flag-read-through)",
 		},
 		NotDec: []string{"cron matching over the calendar (robfig/cron)", "that no minute is missed or doubled over whole tick sequences and restarts", "fsnotify delivery; timer behaviour under clock jumps"},
 	})
@@ -33,6 +34,7 @@ func runC09(e *Env) {
 	c09StopGuard(e)
 	c09EntryTable(e)
 	c09SuspendKey(e)
+	c09SuspendReadThrough(e, "C09.suspend-flag-read-through")
 	c09BadFile(e)
 }
 
